@@ -27,14 +27,21 @@ FirstDiff(L, s, toks, steps, i, thr) ==
   IF i > Len(toks) THEN 0
   ELSE LET s2 == PushTok(L, s, i - 1, MTok(toks[i]), thr, Linking[L]) IN
        IF Proj(s2) # steps[i] THEN i ELSE FirstDiff(L, s2, toks, steps, i + 1, thr)
+\* S8 drift: the model's reverse splice against the tokens returned by replace_numbers_in_stream (ids, texts, hand-over)
+StreamDrift(r) ==
+  "stream" \in DOMAIN r /\ r.stream.st = "ok" /\
+  LET m == ReplaceInStream(r.q.lang, [i \in 1..Len(r.q.toks) |-> MTok(r.q.toks[i])], r.q.thr, Linking[r.q.lang])
+      real == [k \in 1..Len(r.stream.v.out) |-> [id |-> r.stream.v.out[k].id, t |-> r.stream.v.out[k].t, from |-> r.stream.v.out[k].from]]
+  IN m.out # real \/ [k \in 1..Len(m.calls) |-> m.calls[k].data] # [k \in 1..Len(r.stream.v.calls) |-> r.stream.v.calls[k].data]
 DriftOf(r) ==
-  IF r.steps.st # "ok" THEN 0
+  IF StreamDrift(r) THEN Len(r.q.toks) + 2
+  ELSE IF "steps" \notin DOMAIN r \/ r.steps.st # "ok" THEN 0
   ELSE LET d == FirstDiff(r.q.lang, NewScanner, r.q.toks, r.steps.v.steps, 1, r.q.thr) IN
        IF d # 0 THEN d
        ELSE IF ~ModelOccsAgree(r.steps.v.occs, Batch(r.q.lang, [i \in 1..Len(r.q.toks) |-> MTok(r.q.toks[i])], r.q.thr, Linking[r.q.lang]))
             THEN Len(r.q.toks) + 1 ELSE 0
 DriftOn == "DRIFT" \in DOMAIN IOEnv /\ IOEnv.DRIFT = "1"
-InModel(r) == r.q.lang \in Modelled /\ "steps" \in DOMAIN r /\ \A i \in 1..Len(r.q.toks) : AllKnown(r.q.toks[i].t)
+InModel(r) == r.q.lang \in Modelled /\ ("steps" \in DOMAIN r \/ "stream" \in DOMAIN r) /\ \A i \in 1..Len(r.q.toks) : AllKnown(r.q.toks[i].t)
 Drift == IF ~DriftOn THEN {} ELSE
          {x \in {[l |-> l, i |-> Rec[l].i, step |-> DriftOf(Rec[l])] : l \in {j \in 1..Len(Rec) : InModel(Rec[j])}} : x.step # 0}
 Bad == {x \in {[l |-> l, i |-> Rec[l].i, k |-> 1, verdict |-> V(Rec[l])] : l \in 1..Len(Rec)} : x.verdict # ""}
